@@ -57,6 +57,7 @@ type addRec struct {
 	startStep, endStep     int
 	doneAtStart, doneAtEnd bool // pool context done when Add was called / when it returned
 	class                  byte // 'D' definitely a member, 'P' possibly, 'R' certainly not a member
+	ended                  bool // class 'R' because the pool had ended (done / Cancel returned) when Add was called
 }
 
 type sizeRec struct {
@@ -174,7 +175,7 @@ func mkExec(s scen) *mc.Exec {
 		// ---- every pool operation returns ----
 		for _, t := range e.Threads {
 			if harnessThreads[t.Name] && !t.Finished {
-				return fmt.Errorf("deadlock: harness thread %s blocked on %s; parked=%v", t.Name, t.WaitOn, e.Parked())
+				return fmt.Errorf("[key=deadlock] harness thread %s blocked on %s; parked=%v", t.Name, t.WaitOn, e.Parked())
 			}
 		}
 		never := 1 << 30
@@ -233,8 +234,10 @@ func mkExec(s scen) *mc.Exec {
 					live = true
 				}
 			}
-			if a.doneAtStart || (cancelEnd > 0 && cancelEnd < a.start) || !live {
-				a.class = 'R'
+			if a.doneAtStart || (cancelEnd > 0 && cancelEnd < a.start) {
+				a.class, a.ended = 'R', true // offered after the pool ended
+			} else if !live {
+				a.class = 'R' // offered when every member had ended
 			}
 		}
 		isDefiniteAdd := map[*cx]*addRec{}
@@ -254,10 +257,10 @@ func mkExec(s scen) *mc.Exec {
 			}
 			if m.end != 0 {
 				if m.poolDoneEnd && !cancelCalledBefore(m.end) {
-					return fmt.Errorf("SAFETY: the pool's context was already done at step %d, when member %s (%s) ended, and Cancel had not been called", m.endStep, m.name, what)
+					return fmt.Errorf("[key=cancelled-while-member-live] SAFETY: the pool's context was already done at step %d, when member %s (%s) ended, and Cancel had not been called", m.endStep, m.name, what)
 				}
 			} else if finalDone && cancelStart == 0 {
-				return fmt.Errorf("SAFETY: the pool's context is done although member %s (%s) never ended and Cancel was never called", m.name, what)
+				return fmt.Errorf("[key=cancelled-while-member-live] SAFETY: the pool's context is done although member %s (%s) never ended and Cancel was never called", m.name, what)
 			}
 		}
 
@@ -295,14 +298,18 @@ func mkExec(s scen) *mc.Exec {
 				why += fmt.Sprintf(" (the still-live %v were offered when no member was live any more / after the pool ended, so they are not members)", ignoredLive)
 			}
 			if !finalDone {
-				return fmt.Errorf("LIVENESS: %s but the pool's context is not done at final quiescence; parked=%v", why, e.Parked())
+				key := "not-cancelled-after-members-ended"
+				if len(ignoredLive) > 0 && cancelStart == 0 {
+					key = "Add-after-all-members-ended-not-ignored"
+				}
+				return fmt.Errorf("[key=%s] LIVENESS: %s but the pool's context is not done at final quiescence; parked=%v", key, why, e.Parked())
 			}
 			if len(leaked) > 0 {
-				return fmt.Errorf("LIVENESS: %s and the pool's context is done but the watcher goroutine has not exited: %v", why, leaked)
+				return fmt.Errorf("[key=watcher-not-ended] LIVENESS: %s and the pool's context is done but the watcher goroutine has not exited: %v", why, leaked)
 			}
 		}
 		if finalDone && len(leaked) > 0 {
-			return fmt.Errorf("the pool's context is done but its watcher goroutine is still alive: %v", leaked)
+			return fmt.Errorf("[key=watcher-not-ended] the pool's context is done but its watcher goroutine is still alive: %v", leaked)
 		}
 
 		// ---- Size: members being tracked, 0 after Cancel; an Add in flight or
@@ -313,34 +320,52 @@ func mkExec(s scen) *mc.Exec {
 				nInit++
 			}
 		}
-		bounds := func(start, end int) (lo, hi int) {
-			lo, hi = nInit, nInit
+		// hiR: hi plus the Adds offered when every member had ended; hiZ: plus
+		// those offered after the pool ended (they only name the failure)
+		bounds := func(start, end int) (lo, hi, hiR, hiZ int) {
+			lo, hi, hiR, hiZ = nInit, nInit, nInit, nInit
 			for _, a := range adds {
 				if a.class == 'D' && a.end < start && a.c.liveAtOffer {
 					lo++
 				}
-				if a.class != 'R' && a.start < end {
+				if a.start >= end {
+					continue
+				}
+				hiZ++
+				if a.class != 'R' {
 					hi++
+				}
+				if !a.ended {
+					hiR++
 				}
 			}
 			if cancelCalledBefore(end) {
 				lo = 0
 			}
 			if cancelEnd > 0 && cancelEnd < start {
-				hi = 0
+				hi, hiR, hiZ = 0, 0, hiZ-nInit
 			}
 			return
 		}
+		sizeKey := func(v, hi, hiR, hiZ int) string {
+			switch {
+			case v > hi && v <= hiR:
+				return "Add-after-all-members-ended-not-ignored"
+			case v > hi && v <= hiZ:
+				return "Add-after-pool-ended-not-ignored"
+			}
+			return "Size-wrong"
+		}
 		for _, r := range sizes {
-			lo, hi := bounds(r.start, r.end)
+			lo, hi, hiR, hiZ := bounds(r.start, r.end)
 			if r.v < lo || r.v > hi {
-				return fmt.Errorf("SIZE: Size() called at step %d returned %d, the tracked members number between %d and %d (initially live %d; adds %s; Cancel called=%v returned=%v)", r.step, r.v, lo, hi, nInit, addSummary(adds), cancelCalledBefore(r.end), cancelEnd > 0 && cancelEnd < r.start)
+				return fmt.Errorf("[key=%s] SIZE: Size() called at step %d returned %d, the tracked members number between %d and %d (initially live %d; adds %s; Cancel called=%v returned=%v)", sizeKey(r.v, hi, hiR, hiZ), r.step, r.v, lo, hi, nInit, addSummary(adds), cancelCalledBefore(r.end), cancelEnd > 0 && cancelEnd < r.start)
 			}
 		}
 		final := pool.Size() // controller context: immediate
-		lo, hi := bounds(never, never)
+		lo, hi, hiR, hiZ := bounds(never, never)
 		if final < lo || final > hi {
-			return fmt.Errorf("SIZE: at final quiescence Size() = %d, the tracked members number between %d and %d (initially live %d; adds %s; Cancel called=%v)", final, lo, hi, nInit, addSummary(adds), cancelStart > 0)
+			return fmt.Errorf("[key=%s] SIZE: at final quiescence Size() = %d, the tracked members number between %d and %d (initially live %d; adds %s; Cancel called=%v)", sizeKey(final, hi, hiR, hiZ), final, lo, hi, nInit, addSummary(adds), cancelStart > 0)
 		}
 
 		var sz []string
@@ -401,12 +426,7 @@ func orders(digits string) []string {
 func scenarios() []hx.Scenario {
 	var out []hx.Scenario
 	add := func(s scen, bound, minBound int, thoroughOnly bool) {
-		// one finding key per defect class: everything an Add can break is
-		// reachable only in the scenarios that have an adder
-		class := "Pool/done-exactly-when-members-ended"
-		if s.adds != "" {
-			class = "Pool/Add-after-all-members-ended-not-ignored"
-		}
+		class := "Pool"
 		sc := s
 		out = append(out, hx.Scenario{
 			Name: s.name(), Class: class, ThoroughOnly: thoroughOnly,
@@ -447,7 +467,11 @@ func scenarios() []hx.Scenario {
 							// completed to 3 preemptions
 							add(sc, 3, 3, ops > 4 || len(in) > 2)
 						case threads == 3:
-							// 2 preemptions must complete, 3 while the budget lasts
+							// 2 preemptions must complete, 3 while the budget lasts;
+							// 3 initial contexts x 2 Adds x 3 threads is left out (size)
+							if len(in) == 3 && len(ad) == 2 {
+								continue
+							}
 							add(sc, 3, 2, ops > 3 || len(in) > 2)
 						case len(in) <= 2 && len(ad) <= 1:
 							// all four thread kinds: 1 preemption must complete
